@@ -203,3 +203,284 @@ def describe(c, o):
     def mk(m):
         return "None" if m is None else f"{sum(m)}/{len(m)}"
     return f"v{c['fmt']}:N={c['nids']['shape'][0]}:E={c['eids']['shape'][0]}:nm={mk(c['nm'])}:em={mk(c['em'])}:nn={'all' if c['nn'] is None else len(c['nn'])}:{o['res'][0]}"
+
+
+# =====================================================================================================
+# case kind "seq": ONE GeffReader, a sequence of read_node_props / read_edge_props / build calls
+# (model: coq/theories/ReaderSM.v, evaluated through Corr.C09.ISeq).  Additive: the functions above
+# are wrapped, not edited.
+# =====================================================================================================
+RULE += ("; kind seq: one GeffReader per case over a stored graph (fixed graph: every sequence of <=2 (quick) / <=3 (thorough, zarr 3) calls from a "
+         "10-call alphabet; random graphs as above, MemoryStore or directory store, 1..6 random calls: names None / [] / samples of the "
+         "stored names with repeats / names that are not stored / names of the other group, builds with random masks; 1 in 10 stores has a "
+         "property without metadata entry or without values array, validation mostly off); observed after every call: exception class or "
+         "built graph, list(rd.node_props), list(rd.edge_props), keys of rd.metadata's property tables")
+EXHAUSTIVE_BLOCKS += ["fixed 4-node graph, one reader: all call sequences of length <=2 (quick, thorough zarr 2) / <=3 (thorough, zarr 3) over "
+                      "{read_node_props(None|[]|['a']|['v','a']|['nope']), read_edge_props(None|['w']), build(), build(nm), build(nm, em)}"]
+ASSUMPTIONS += ["seq: requested names are non-empty strings without '/' (zarr normalises paths: '' opens the props group itself)",
+                "seq: a member that is an ARRAY where a property group is expected is outside the tie (zarr 2 / zarr 3 raise different classes)"]
+
+SEQ_ALPHABET = [{"op": "rn", "names": None}, {"op": "rn", "names": []}, {"op": "rn", "names": ["a"]}, {"op": "rn", "names": ["v", "a"]},
+                {"op": "rn", "names": ["nope"]}, {"op": "re", "names": None}, {"op": "re", "names": ["w"]},
+                {"op": "b", "nm": None, "em": None}, {"op": "b", "nm": [True, False, True, True], "em": None},
+                {"op": "b", "nm": [True, True, False, True], "em": [True, True, False, True]}]
+
+
+def rand_names(rng, own, other):
+    r = rng.random()
+    if r < 0.18:
+        return None
+    if r < 0.28:
+        return []
+    pool = list(own)
+    names = [rng.choice(pool) for _ in range(rng.randint(1, min(4, len(pool) + 1)))] if pool else []
+    if rng.random() < 0.5:
+        names = list(dict.fromkeys(names))
+    if rng.random() < 0.22 or not names:
+        bad = rng.choice(["nope", "p_missing"] + [n for n in other if n not in own][:2])
+        names.insert(rng.randint(0, len(names)), bad)
+    return names
+
+
+def rand_ops(rng, g):
+    n, e = g["nids"]["shape"][0], g["eids"]["shape"][0]
+    nn, en = list((g["nprops"] or {}).keys()), list((g["eprops"] or {}).keys())
+    ops = []
+    for _ in range(rng.randint(1, 6)):
+        r = rng.random()
+        if r < 0.33:
+            ops.append({"op": "rn", "names": rand_names(rng, nn, en)})
+        elif r < 0.6:
+            ops.append({"op": "re", "names": rand_names(rng, en, nn)})
+        else:
+            ops.append({"op": "b", "nm": rng.choice(masks_for(rng, n, 0, 2)), "em": rng.choice(masks_for(rng, e, 0, 2))})
+    if ops[-1]["op"] != "b" and rng.random() < 0.75:
+        ops[-1 if len(ops) == 6 else len(ops):] = [{"op": "b", "nm": rng.choice(masks_for(rng, n, 0, 2)), "em": rng.choice(masks_for(rng, e, 0, 2))}]
+    return ops
+
+
+def generate_seq(rng, tier):
+    g = fixed_graph()
+    for fmt in (2, 3):
+        for k in range(1, 3 if (tier == "quick" or fmt == 2) else 4):  # length-3 sequences: thorough tier, zarr 3 only
+            for seq in itertools.product(SEQ_ALPHABET, repeat=k):
+                yield {"kind": "seq", "fmt": fmt, "store": "mem", "validate": True, "corrupt": None, "ops": [dict(o) for o in seq], **g}
+    # sparse ids (1000*t + label), 20-48 nodes: two different node masks on one reader, property reads in between
+    for i in range(8 if tier == "quick" else 60):
+        lc = lineage_case(rng)
+        n, e = lc["nids"]["shape"][0], lc["eids"]["shape"][0]
+        nm2 = [not (rng.random() < 0.2) for _ in range(n)]
+        ops = [{"op": "rn", "names": rng.choice([None, ["t"], []])}, {"op": "b", "nm": lc["nm"], "em": lc["em"]},
+               {"op": "re", "names": rng.choice([None, ["w"]])}, {"op": "b", "nm": nm2, "em": rng.choice([None, [rng.random() < 0.8 for _ in range(e)]])},
+               {"op": "b", "nm": lc["nm"], "em": None}]
+        yield {"kind": "seq", "fmt": lc["fmt"], "store": "mem", "validate": True, "corrupt": None, "ops": ops,
+               **{k: lc[k] for k in ("nids", "eids", "nprops", "eprops", "md")}}
+    for i in range(260 if tier == "quick" else 1800):
+        g = gg.rand_graph(rng, axes=False)
+        corrupt = None
+        pools = [("n", k) for k in (g["nprops"] or {})] + [("e", k) for k in (g["eprops"] or {})]
+        if pools and rng.random() < 0.1:
+            side, name = rng.choice(pools)
+            corrupt = {"what": rng.choice(["no-md", "no-values"]), "side": side, "name": name}
+        validate = (rng.random() < 0.7) if corrupt is None else (rng.random() < 0.2)
+        for _ in range(2):
+            yield {"kind": "seq", "fmt": rng.choice([2, 3]), "store": rng.choice(["mem", "mem", "dir"]), "validate": validate,
+                   "corrupt": corrupt, "ops": rand_ops(rng, g), **g}
+
+
+_generate_build = generate
+
+
+def generate(rng: random.Random, tier: str):  # noqa: F811
+    import os
+
+    kinds = os.environ.get("C09_KINDS", "build,seq").split(",")  # sensitivity runs select one case kind
+    if "build" in kinds:
+        yield from _generate_build(rng, tier)
+    if "seq" in kinds:
+        yield from generate_seq(rng, tier)
+
+
+def c_op(o):
+    if o["op"] == "b":
+        return f"(Build {c_mask(o['nm'])} {c_mask(o['em'])})"
+    return f"({'RNode' if o['op'] == 'rn' else 'REdge'} {c_names(o['names'])})"
+
+
+def corrupt_store(st, cor):
+    import zarr
+
+    g = zarr.open_group(st, mode="r+")
+    grp = "nodes" if cor["side"] == "n" else "edges"
+    if cor["what"] == "no-values":
+        del g[f"{grp}/props/{cor['name']}/values"]
+    else:
+        a = dict(g.attrs["geff"])
+        key = "node_props_metadata" if cor["side"] == "n" else "edge_props_metadata"
+        a[key] = {k: v for k, v in a[key].items() if k != cor["name"]}
+        g.attrs["geff"] = a
+
+
+def run_seq(c):
+    import hashlib
+    import os
+    import tempfile
+
+    from zarr.storage import MemoryStore
+
+    from geff import GeffReader
+    from geff.core_io import read_to_memory, write_arrays
+    from harness.storelib import snapshot
+
+    it = Interner()
+    with tempfile.TemporaryDirectory(prefix="c09seq") as td:
+        st = MemoryStore() if c["store"] == "mem" else os.path.join(td, "g.zarr")
+        write_arrays(st, gg.to_np(c["nids"]), gg.props_to_np(c["nprops"]), gg.to_np(c["eids"]), gg.props_to_np(c["eprops"]),
+                     gg.make_metadata({k: v for k, v in c["md"].items() if v is not None}), zarr_format=c["fmt"])
+        obs = {"steps": [], "listed": [[], []], "full_err": None}
+        try:
+            full = read_to_memory(st)  # the full read of the pristine store: reference of the oracle
+        except Exception as e:
+            full, obs["full_err"] = None, f"{type(e).__name__}: {str(e)[:100]}"
+        if c["corrupt"]:
+            corrupt_store(st, c["corrupt"])
+        tree = dump_tree(st, it)
+        snap0 = snapshot(st)
+        rd = None
+        try:
+            rd = GeffReader(st) if c["validate"] else GeffReader(st, validate=False)
+            obs["init"] = ["ok"]
+            obs["listed"] = [list(rd.node_prop_names), list(rd.edge_prop_names)]
+        except Exception as e:
+            obs["init"] = ["err", exn_name(e), type(e).__name__, str(e)[:100]]
+        terms = []
+        track = {"n": {"ok": [], "any": set(), "failed": False}, "e": {"ok": [], "any": set(), "failed": False}}
+        stored = {"n": list((c["nprops"] or {}).keys()), "e": list((c["eprops"] or {}).keys())}
+        printable = tree_printable(tree)
+        if rd is not None:
+            fp0 = hashlib.sha1(rd.metadata.model_dump_json().encode()).hexdigest()
+            for o in c["ops"]:
+                step, part = {}, None
+                before = (list(rd.node_props), list(rd.edge_props))
+                try:
+                    if o["op"] == "rn":
+                        rd.read_node_props(None if o["names"] is None else list(o["names"]))
+                    elif o["op"] == "re":
+                        rd.read_edge_props(None if o["names"] is None else list(o["names"]))
+                    else:
+                        nm = None if o["nm"] is None else np.array(o["nm"], dtype=bool)
+                        em = None if o["em"] is None else np.array(o["em"], dtype=bool)
+                        part = rd.build(nm, em)
+                    step["res"] = ["ok"]
+                except Exception as e:
+                    step["res"] = ["err", exn_name(e), type(e).__name__, str(e)[:100]]
+                step["nkeys"], step["ekeys"] = list(rd.node_props), list(rd.edge_props)
+                step["mdn"], step["mde"] = list(rd.metadata.node_props_metadata), list(rd.metadata.edge_props_metadata)
+                step["md_same"] = hashlib.sha1(rd.metadata.model_dump_json().encode()).hexdigest() == fp0
+                try:
+                    step["bad"] = seq_step_verdict(c, o, step, part, before, full, track, stored)
+                except Exception as e:  # e.g. arrays of the wrong length in the built graph or in the full read
+                    step["bad"] = f"the built graph cannot be compared with the full read ({type(e).__name__}: {str(e)[:60]})"
+                obs["steps"].append(step)
+                if printable:
+                    try:
+                        if step["res"][0] != "ok":
+                            r = f"(Err {step['res'][1]})"
+                        else:
+                            r = "(Ok None)" if part is None else f"(Ok (Some {gg.c_mgraph(part, it)}))"
+                        terms.append(f"(mksobs {clist(step['nkeys'], cstr)} {clist(step['ekeys'], cstr)} {clist(step['mdn'], cstr)} "
+                                     f"{clist(step['mde'], cstr)} {r})")
+                    except HarnessError:
+                        printable = False
+        obs["store_same"] = snapshot(st) == snap0
+        if printable:
+            init = "(Ok tt)" if obs["init"][0] == "ok" else f"(Err {obs['init'][1]})"
+            obs["coq"] = (f"(ISeq {c_otree(tree)} {cbool(bool(c['validate']))} {clist(obs['listed'][0], cstr)} {clist(obs['listed'][1], cstr)} "
+                          f"{clist(c['ops'], c_op)}, OSeq {init} {clist(terms, lambda t: t)})")
+    return obs
+
+
+def seq_step_verdict(c, o, step, part, before, full, track, stored):
+    """Independent statement of the property for one call of a sequence (numpy data + the names asked for so far).
+    Returns None or a description.  Stores that were damaged after writing are judged on state constancy only."""
+    ok = step["res"][0] == "ok"
+    if not step["md_same"]:
+        return "the reader's own metadata changed"
+    if o["op"] == "b":
+        if (step["nkeys"], step["ekeys"]) != before:
+            return "build changed the loaded property tables of the reader"
+        if c["corrupt"]:
+            return None
+        if not ok:
+            return f"build raised {step['res'][2]}"
+        if full is None:
+            return None  # reported once per case (full_err)
+        for side, keys in (("n", step["nkeys"]), ("e", step["ekeys"])):
+            t = track[side]
+            got = set(part["node_props" if side == "n" else "edge_props"])
+            if not (set(t["ok"]) <= got <= t["any"]) or (not t["failed"] and got != set(t["ok"])):
+                return (f"{'node' if side == 'n' else 'edge'} properties built {sorted(got)}, requested so far {sorted(t['ok'])}"
+                        + (f" (+ at most {sorted(t['any'] - set(t['ok']))} from failed calls)" if t["failed"] else ""))
+        nm = None if o["nm"] is None else np.array(o["nm"], dtype=bool)
+        em = None if o["em"] is None else np.array(o["em"], dtype=bool)
+        return restriction_diff(full, part, list(part["node_props"]), list(part["edge_props"]), nm, em)
+    side = "n" if o["op"] == "rn" else "e"
+    if c["corrupt"]:
+        return None
+    names = stored[side] if o["names"] is None else list(o["names"])
+    unknown = [x for x in names if x not in stored[side]]
+    t = track[side]
+    t["any"] |= {x for x in names if x in stored[side]}
+    if unknown:
+        t["failed"] = True
+        if ok:
+            return f"reading the unknown property {unknown[0]!r} did not raise"
+    else:
+        if not ok:
+            return f"reading stored properties raised {step['res'][2]}"
+        t["ok"] += [x for x in names if x not in t["ok"]]
+    keys = step["nkeys"] if side == "n" else step["ekeys"]
+    if not (set(t["ok"]) <= set(keys) <= t["any"]):
+        return f"reader holds {sorted(keys)}, requested so far {sorted(t['ok'])}"
+    if (step["ekeys"] if side == "n" else step["nkeys"]) != before[1 if side == "n" else 0]:
+        return "a read of one group changed the other group's table"
+    return None
+
+
+_run_impl_build, _oracle_build, _nontrivial_build, _describe_build = run_impl, oracle, nontrivial, describe
+
+
+def run_impl(c):  # noqa: F811
+    if c["kind"] == "seq":
+        return run_seq(c)
+    try:
+        return _run_impl_build(c)
+    except Exception as e:  # the comparison itself broke (arrays of impossible lengths): a failure of the case, not of the harness
+        return {"res": ["err", "OtherExn", f"comparison failed with {type(e).__name__}", str(e)[:100]]}
+
+
+def oracle(c, o):  # noqa: F811
+    if c["kind"] != "seq":
+        return _oracle_build(c, o)
+    if not o["store_same"]:
+        return Failure(c, slim(o), "the store changed while it was read", {"why": "seq", "what": "store-changed"})
+    if o["full_err"]:
+        return Failure(c, slim(o), f"read_to_memory of the written store raised {o['full_err']}", {"why": "seq", "what": "full-read-raises"})
+    if o["init"][0] != "ok" and not c["corrupt"]:
+        return Failure(c, slim(o), f"GeffReader() raised {o['init'][2]}: {o['init'][3]}", {"why": "seq", "what": "init-raises"})
+    for i, s in enumerate(o["steps"]):
+        if s["bad"]:
+            return Failure(c, slim(o), f"call {i} ({c['ops'][i]['op']}): {s['bad']}", {"why": "seq", "what": s["bad"][:30]})
+    return None
+
+
+def nontrivial(c, o):  # noqa: F811
+    return len(c["ops"]) >= 2 if c["kind"] == "seq" else _nontrivial_build(c, o)
+
+
+def describe(c, o):  # noqa: F811
+    if c["kind"] != "seq":
+        return _describe_build(c, o)
+    pat = "".join({"rn": "n", "re": "e", "b": "B"}[x["op"]] for x in c["ops"])
+    errs = sum(1 for s in o["steps"] if s["res"][0] != "ok")
+    return f"seq:v{c['fmt']}:{c['store']}:{pat}:err={errs}{':damaged' if c['corrupt'] else ''}"
